@@ -1,7 +1,410 @@
-//! stub
-use serde_json::Value;
-use crate::engine::Ctx;
-pub const RULE: &str = "";
-pub const ASSUMPTIONS: &[&str] = &[];
-pub fn run(_ctx: &Ctx) {}
-pub fn replay(_part: &str, _case: &Value) -> Result<(), String> { Err("not implemented".into()) }
+//! C15 — reading consumes exactly one line; writing delivers the whole frame.
+
+use std::io;
+
+use flipdot_core::{Address, Data, Frame, FrameError, MsgType};
+use proptest::prelude::*;
+use serde::{Deserialize, Serialize};
+use serde_json::{json, Value};
+
+use crate::engine::{catch, h64, par_range, run_generated, show_bytes, Ctx, Stats};
+use crate::io::port::{Exhausted, PortState, ReadStep, TestPort, WriteStep};
+use crate::oracle::hex::ref_encode;
+use crate::props::c01::{addr_strategy, byte_strategy, FrameCase};
+
+pub const RULE: &str = "read: streams of 1..5 lines (valid frames, deliberately invalid lines; CRLF, bare LF or - for the last - no terminator) followed by 0..20 arbitrary trailing bytes, served by an instrumented reader that fragments the stream (every composition of the shortest stream of 14 bytes exhaustively, generated fragmentations beyond), injects ErrorKind::Interrupted at generated call indices, a hard error (Other/TimedOut/WouldBlock/UnexpectedEof) at every call index in turn, and early EOF or a timeout when the stream ends; Frame::read is called until the stream is used up and each call must consume exactly up to and including the next line feed (cursor measured inside the reader) and return what decoding that line returns; a hard error must surface as FrameError::Io. write: frames written to an instrumented sink that accepts 1..k bytes per call, reports Interrupted, Ok(0) or a hard error at generated / every call index: success must deliver exactly the CRLF encoding, failure a prefix and FrameError::Io. Non-trivial = a stream with >= 2 lines and a non-trivial fragmentation, or any injected fault; distinct by hash of the case";
+pub const ASSUMPTIONS: &[&str] = &[
+    "\"decoding that line\" is Frame::from_bytes on the bytes the reader handed out (the decoder itself is C03's subject)",
+    "verdicts are derived from the calls the implementation actually made (recorded by the reader/sink), not from a predicted call pattern",
+];
+
+#[derive(Serialize, Deserialize, Debug, Clone, PartialEq, Eq, Hash)]
+pub enum IoKind {
+    Other,
+    TimedOut,
+    WouldBlock,
+    UnexpectedEof,
+    BrokenPipe,
+}
+
+impl IoKind {
+    fn kind(&self) -> io::ErrorKind {
+        match self {
+            IoKind::Other => io::ErrorKind::Other,
+            IoKind::TimedOut => io::ErrorKind::TimedOut,
+            IoKind::WouldBlock => io::ErrorKind::WouldBlock,
+            IoKind::UnexpectedEof => io::ErrorKind::UnexpectedEof,
+            IoKind::BrokenPipe => io::ErrorKind::BrokenPipe,
+        }
+    }
+}
+
+#[derive(Serialize, Deserialize, Debug, Clone, PartialEq, Eq, Hash)]
+pub enum RStep {
+    Serve(usize),
+    Interrupted,
+    Error(IoKind),
+}
+
+#[derive(Serialize, Deserialize, Debug, Clone, PartialEq, Eq, Hash)]
+pub struct ReadCase {
+    pub stream: Vec<u8>,
+    pub script: Vec<RStep>,
+    pub timeout_at_end: bool,
+}
+
+fn same_decode(a: &Result<Frame<'static>, FrameError>, b: &Result<Frame<'static>, FrameError>) -> bool {
+    match (a, b) {
+        (Ok(x), Ok(y)) => x == y,
+        (Err(FrameError::InvalidFrame { .. }), Err(FrameError::InvalidFrame { .. })) => true,
+        (
+            Err(FrameError::FrameDataMismatch { expected: e1, actual: a1, .. }),
+            Err(FrameError::FrameDataMismatch { expected: e2, actual: a2, .. }),
+        ) => e1 == e2 && a1 == a2,
+        (Err(FrameError::BadChecksum { expected: e1, actual: a1, .. }), Err(FrameError::BadChecksum { expected: e2, actual: a2, .. })) => {
+            e1 == e2 && a1 == a2
+        }
+        _ => false,
+    }
+}
+
+pub fn check_read(c: &ReadCase, st: &mut Stats) -> Result<(), String> {
+    let mut state = PortState::new(c.stream.clone());
+    state.read_script = c
+        .script
+        .iter()
+        .map(|s| match s {
+            RStep::Serve(n) => ReadStep::Serve(*n),
+            RStep::Interrupted => ReadStep::Interrupted,
+            RStep::Error(k) => ReadStep::Error(k.kind()),
+        })
+        .collect();
+    state.on_exhausted = if c.timeout_at_end { Exhausted::TimedOut } else { Exhausted::Eof };
+    state.call_cap = 20_000;
+    let mut port = TestPort::with_state(state);
+    let h = port.handle();
+    let mut cursor = 0usize; // where the next line starts according to the oracle
+    let mut reads = 0;
+    let mut frames_ok = 0;
+    let mut saw_fault = c.script.iter().any(|s| !matches!(s, RStep::Serve(_)));
+    let fragmented = c.script.iter().any(|s| matches!(s, RStep::Serve(n) if *n > 1));
+    loop {
+        if cursor >= c.stream.len() || reads >= 8 {
+            break;
+        }
+        reads += 1;
+        let calls_before = h.borrow().read_calls.len();
+        let result = catch(|| Frame::read(&mut port)).map_err(|p| format!("Frame::read panicked: {p}"))?;
+        st.eval();
+        let s = h.borrow();
+        if s.cap_hit {
+            return Err("Frame::read keeps calling read() without making progress (call cap reached)".into());
+        }
+        let hard_error = s.read_calls[calls_before..]
+            .iter()
+            .find_map(|r| match r.result {
+                Err(k) if k != io::ErrorKind::Interrupted => Some(k),
+                _ => None,
+            });
+        let line_end = match c.stream[cursor..].iter().position(|&b| b == b'\n') {
+            Some(i) => cursor + i + 1,
+            None => c.stream.len(),
+        };
+        if s.pos > line_end {
+            return Err(format!(
+                "read {reads} consumed {} bytes past the line feed: stream {} cursor {} -> {}, the line ends at {}",
+                s.pos - line_end,
+                show_bytes(&c.stream),
+                cursor,
+                s.pos,
+                line_end
+            ));
+        }
+        if let Some(k) = hard_error {
+            saw_fault = true;
+            match &result {
+                Err(FrameError::Io { .. }) => {}
+                other => return Err(format!("the reader failed with {k:?} but Frame::read returned {other:?} instead of an I/O error")),
+            }
+            // the stream position after an I/O failure is not specified beyond "no over-read"; continue after the line
+            drop(s);
+            h.borrow_mut().pos = line_end;
+            cursor = line_end;
+            continue;
+        }
+        if s.pos != line_end {
+            return Err(format!(
+                "read {reads} stopped at offset {} but the line (up to and including the first line feed) ends at {}: stream {}",
+                s.pos,
+                line_end,
+                show_bytes(&c.stream)
+            ));
+        }
+        let line = &c.stream[cursor..line_end];
+        let want = Frame::from_bytes(line);
+        if !same_decode(&result, &want) {
+            return Err(format!(
+                "read {reads} returned {result:?} but decoding the line {} gives {want:?}",
+                show_bytes(line)
+            ));
+        }
+        if result.is_ok() {
+            frames_ok += 1;
+        }
+        cursor = line_end;
+    }
+    let lines = c.stream.iter().filter(|&&b| b == b'\n').count();
+    if (lines >= 2 && fragmented) || saw_fault {
+        st.nontrivial(h64(c));
+        st.class("read:nontrivial");
+    } else {
+        st.class("read:plain");
+    }
+    st.class_n("read:frames-decoded", frames_ok);
+    if st.want_sample() && lines >= 2 && saw_fault && c.stream.len() < 80 {
+        st.sample(json!({"stream": show_bytes(&c.stream), "script": c.script.iter().take(12).collect::<Vec<_>>(), "timeout_at_end": c.timeout_at_end}));
+    }
+    Ok(())
+}
+
+#[derive(Serialize, Deserialize, Debug, Clone, PartialEq, Eq, Hash)]
+pub enum WStep {
+    Accept(usize),
+    Interrupted,
+    Zero,
+    Error(IoKind),
+}
+
+#[derive(Serialize, Deserialize, Debug, Clone, PartialEq, Eq, Hash)]
+pub struct WriteCase {
+    pub frame: FrameCase,
+    pub script: Vec<WStep>,
+}
+
+pub fn check_write(c: &WriteCase, st: &mut Stats) -> Result<(), String> {
+    let mut want = ref_encode(c.frame.addr, c.frame.ty, &c.frame.data);
+    want.extend_from_slice(b"\r\n");
+    let mut state = PortState::new(vec![]);
+    state.write_script = c
+        .script
+        .iter()
+        .map(|s| match s {
+            WStep::Accept(n) => WriteStep::Accept(*n),
+            WStep::Interrupted => WriteStep::Interrupted,
+            WStep::Zero => WriteStep::Zero,
+            WStep::Error(k) => WriteStep::Error(k.kind()),
+        })
+        .collect();
+    state.call_cap = 20_000;
+    let mut port = TestPort::with_state(state);
+    let h = port.handle();
+    let frame = Frame::new(Address(c.frame.addr), MsgType(c.frame.ty), Data::try_new(c.frame.data.clone()).unwrap());
+    let result = catch(|| frame.write(&mut port)).map_err(|p| format!("Frame::write panicked: {p}"))?;
+    st.eval();
+    let s = h.borrow();
+    if s.cap_hit {
+        return Err("Frame::write keeps calling write() without making progress (call cap reached)".into());
+    }
+    let failing_call = s.write_calls.iter().find(|r| match r.result {
+        Err(k) => k != io::ErrorKind::Interrupted,
+        Ok(0) => r.offered > 0,
+        Ok(_) => false,
+    });
+    match (&result, failing_call) {
+        (Ok(()), None) => {
+            if s.written != want {
+                return Err(format!(
+                    "Frame::write returned Ok but the sink received {} instead of {}",
+                    show_bytes(&s.written),
+                    show_bytes(&want)
+                ));
+            }
+        }
+        (Ok(()), Some(f)) => {
+            return Err(format!("the sink failed ({:?}) but Frame::write returned Ok", f.result));
+        }
+        (Err(FrameError::Io { .. }), Some(_)) => {
+            if !want.starts_with(&s.written) {
+                return Err(format!(
+                    "after a failed write the sink holds {}, which is not a prefix of {}",
+                    show_bytes(&s.written),
+                    show_bytes(&want)
+                ));
+            }
+        }
+        (Err(e), None) => return Err(format!("Frame::write failed with {e:?} although the sink never failed")),
+        (Err(e), Some(_)) => return Err(format!("a sink failure surfaced as {e:?} instead of an I/O error")),
+    }
+    let faulty = c.script.iter().any(|s| !matches!(s, WStep::Accept(n) if *n >= want.len()));
+    if faulty {
+        st.nontrivial(h64(c));
+        st.class("write:short-or-faulty-sink");
+    } else {
+        st.class("write:plain");
+    }
+    Ok(())
+}
+
+// ---------------------------------------------------------------------------------------
+
+fn line_strategy() -> impl Strategy<Value = Vec<u8>> {
+    let valid = || (addr_strategy(), byte_strategy(), proptest::collection::vec(byte_strategy(), 0..20)).prop_map(|(a, t, d)| ref_encode(a, t, &d));
+    prop_oneof![
+        8 => valid(),
+        1 => valid().prop_map(|mut v| { let n = v.len(); v[n - 1] = if v[n - 1] == b'0' { b'1' } else { b'0' }; v }), // bad checksum
+        1 => valid().prop_map(|mut v| { v.pop(); v }),                                          // odd digit count
+        1 => proptest::collection::vec(any::<u8>().prop_filter("no LF", |b| *b != b'\n'), 0..12),
+        1 => Just(vec![]),
+    ]
+}
+
+fn stream_strategy() -> impl Strategy<Value = Vec<u8>> {
+    (
+        proptest::collection::vec((line_strategy(), prop_oneof![6 => Just(0u8), 2 => Just(1u8)]), 1..=5),
+        prop_oneof![5 => Just(true), 1 => Just(false)],
+        prop_oneof![2 => Just(vec![]), 1 => proptest::collection::vec(any::<u8>(), 0..20)],
+    )
+        .prop_map(|(lines, last_terminated, trailing)| {
+            let n = lines.len();
+            let mut s = vec![];
+            for (i, (l, term)) in lines.into_iter().enumerate() {
+                s.extend_from_slice(&l);
+                if i + 1 < n || last_terminated {
+                    s.extend_from_slice(if term == 0 { b"\r\n" } else { b"\n" });
+                }
+            }
+            s.extend_from_slice(&trailing);
+            s
+        })
+}
+
+fn iokind_strategy() -> impl Strategy<Value = IoKind> {
+    proptest::sample::select(vec![IoKind::Other, IoKind::TimedOut, IoKind::WouldBlock, IoKind::UnexpectedEof, IoKind::BrokenPipe])
+}
+
+fn read_case_strategy() -> impl Strategy<Value = ReadCase> {
+    let step = prop_oneof![
+        10 => (1usize..40).prop_map(RStep::Serve),
+        4 => Just(RStep::Serve(1)),
+        2 => Just(RStep::Interrupted),
+    ];
+    (
+        stream_strategy(),
+        proptest::collection::vec(step, 0..120),
+        prop_oneof![3 => Just(None), 1 => (any::<u16>(), iokind_strategy()).prop_map(Some)],
+        any::<bool>(),
+    )
+        .prop_map(|(stream, mut script, hard, timeout_at_end)| {
+            if let Some((sel, kind)) = hard {
+                let at = crate::engine::pick_idx(sel, stream.len() + 2);
+                while script.len() <= at {
+                    script.push(RStep::Serve(usize::MAX));
+                }
+                script[at] = RStep::Error(kind);
+            }
+            ReadCase { stream, script, timeout_at_end }
+        })
+}
+
+fn write_case_strategy() -> impl Strategy<Value = WriteCase> {
+    let step = prop_oneof![
+        8 => (1usize..12).prop_map(WStep::Accept),
+        3 => Just(WStep::Accept(1)),
+        3 => Just(WStep::Interrupted),
+    ];
+    (
+        (addr_strategy(), byte_strategy(), prop_oneof![4 => proptest::collection::vec(byte_strategy(), 0..20), 1 => proptest::collection::vec(byte_strategy(), 200..=255)]),
+        proptest::collection::vec(step, 0..80),
+        prop_oneof![2 => Just(None), 1 => (any::<u16>(), prop_oneof![1 => Just(WStep::Zero), 3 => iokind_strategy().prop_map(WStep::Error)]).prop_map(Some)],
+    )
+        .prop_map(|((addr, ty, data), mut script, hard)| {
+            if let Some((sel, step)) = hard {
+                let at = crate::engine::pick_idx(sel, 40);
+                while script.len() <= at {
+                    script.push(WStep::Accept(usize::MAX));
+                }
+                script[at] = step;
+            }
+            WriteCase { frame: FrameCase { addr, ty, data }, script }
+        })
+}
+
+pub fn run(ctx: &Ctx) {
+    // every composition of the shortest terminated frame + one trailing byte (14 bytes): 2^13 fragmentations
+    let short: Vec<u8> = b":0000000000\r\nX".to_vec();
+    par_range(ctx, "read-all-compositions", 1 << 13, |mask, st| {
+        let mut script = vec![];
+        let mut run = 1usize;
+        for i in 0..13 {
+            if mask >> i & 1 == 1 {
+                script.push(RStep::Serve(run));
+                run = 1;
+            } else {
+                run += 1;
+            }
+        }
+        script.push(RStep::Serve(run));
+        let c = ReadCase { stream: short.clone(), script, timeout_at_end: false };
+        check_read(&c, st).map_err(|m| (serde_json::to_value(&c).unwrap(), m))?;
+        st.nontrivial_enumerated(1);
+        Ok(())
+    });
+    ctx.part_done("read-all-compositions", true, json!("every composition of a 14-byte stream (shortest CRLF frame + 1 trailing byte) as read sizes"));
+
+    // a hard error / interruption at every call index of a three-frame stream, every error kind
+    let mut three = vec![];
+    three.extend_from_slice(&ref_encode(3, 4, &[0x0F]));
+    three.extend_from_slice(b"\r\n");
+    three.extend_from_slice(&ref_encode(0xFFFF, 0, &[1, 2, 3, 4, 5, 6, 7, 8, 9, 10, 11, 12, 13, 14, 15, 16]));
+    three.extend_from_slice(b"\n");
+    three.extend_from_slice(b":0000000001\r\nTAIL");
+    let kinds = [IoKind::Other, IoKind::TimedOut, IoKind::WouldBlock, IoKind::UnexpectedEof, IoKind::BrokenPipe];
+    par_range(ctx, "read-fault-at-every-call", (three.len() + 2) as u64, |at, st| {
+        for kind in &kinds {
+            for serve in [1usize, 3, 64] {
+                let mut script = vec![RStep::Serve(serve); at as usize];
+                script.push(RStep::Error(kind.clone()));
+                let c = ReadCase { stream: three.clone(), script, timeout_at_end: false };
+                check_read(&c, st).map_err(|m| (serde_json::to_value(&c).unwrap(), m))?;
+            }
+        }
+        for serve in [1usize, 64] {
+            let mut script = vec![RStep::Serve(serve); at as usize];
+            script.extend_from_slice(&[RStep::Interrupted, RStep::Interrupted]);
+            let c = ReadCase { stream: three.clone(), script, timeout_at_end: true };
+            check_read(&c, st).map_err(|m| (serde_json::to_value(&c).unwrap(), m))?;
+        }
+        st.nontrivial_enumerated(17);
+        Ok(())
+    });
+    ctx.part_done("read-fault-at-every-call", true, json!("3-frame stream: hard error of 5 kinds x 3 read sizes and a double interruption at every read-call index"));
+
+    // write: a failure at every call index, 1-byte sink
+    let wframe = FrameCase { addr: 0xBEEF, ty: 0, data: (0..16).collect() };
+    par_range(ctx, "write-fault-at-every-call", 48, |at, st| {
+        for accept in [1usize, 2, 7, 1000] {
+            for bad in [WStep::Zero, WStep::Error(IoKind::Other), WStep::Error(IoKind::BrokenPipe), WStep::Error(IoKind::TimedOut), WStep::Interrupted] {
+                let mut script = vec![WStep::Accept(accept); at as usize];
+                script.push(bad);
+                let c = WriteCase { frame: wframe.clone(), script };
+                check_write(&c, st).map_err(|m| (serde_json::to_value(&c).unwrap(), m))?;
+            }
+        }
+        st.nontrivial_enumerated(20);
+        Ok(())
+    });
+    ctx.part_done("write-fault-at-every-call", true, json!("sink accepting 1/2/7/all bytes per call with Ok(0), 3 hard errors or Interrupted at every call index 0..48"));
+
+    run_generated(ctx, "read", ctx.tier.pick(150_000, 3_000_000), read_case_strategy, |c, st| check_read(c, st));
+    run_generated(ctx, "write", ctx.tier.pick(100_000, 2_000_000), write_case_strategy, |c, st| check_write(c, st));
+}
+
+pub fn replay(part: &str, case: &Value) -> Result<(), String> {
+    let mut st = Stats::new();
+    if part.starts_with("write") {
+        let c: WriteCase = serde_json::from_value(case.clone()).map_err(|e| format!("bad case: {e}"))?;
+        return check_write(&c, &mut st);
+    }
+    let c: ReadCase = serde_json::from_value(case.clone()).map_err(|e| format!("bad case: {e}"))?;
+    check_read(&c, &mut st)
+}
